@@ -1351,6 +1351,13 @@ def _check_derivative(ctx):
         alts = []
         for slots, nu in sorted(nm.items()):
             eta = _tensor_from_slots(name, nu, slots, ETA)
+            # the block expression multiplies the CANONICAL tensor: when a
+            # target index keeps the minimised indices from being in
+            # canonical order, the sign of the re-canonicalisation belongs to
+            # the block expression ("move the -1 to the contribution",
+            # derivative.py), not to the variation
+            if eta.could_extract_minus_sign():
+                eta = -eta
             prods = [eta * r for r in dterms]
             alts.append((slots, prods))
             all_sympy.extend(prods)
